@@ -35,9 +35,13 @@ const (
 	vFileAll = "file-all"      // File.Readdir directly, every returned entry is consumed (as fsimpl/test does)
 	vFileCut = "file-cut"      // File.Readdir directly, reply cut to whole entries within count as treaddir.handle + rreaddir.encode do
 	vClient  = "client-server" // real p9.Client against real p9.Server
+	// as file-all, and between any two pages the directory File is cloned
+	// (Walk with no names) and the clone closed again, as the server does for
+	// every Twalk-clone / Txattrwalk on an open directory fid
+	vFileClone = "file-all+clone-between-pages"
 )
 
-var vias = []string{vFileAll, vFileCut, vClient}
+var vias = []string{vFileAll, vFileCut, vClient, vFileClone}
 
 const alpha = "0123456789ABCDEFGHIJKLMNOPQRSTUVWXYZabcdefghijklmnopqrstuvwxyz"
 
